@@ -854,6 +854,16 @@ def c13(tier, seed):
         "errorf_then_more": lambda: [draw(g("Byte"), "x", "x"), iff("x", "ge", 3, [op("errorf", text="soft")]), draw(g("SliceOf", elem=g("Uint64")), "s")],
         "wide": lambda: [draw(g("Uint64"), "a"), draw(g("Uint64"), "b"), draw(g("Uint64"), "c")],
         "nodraw": lambda: [op("log", text="no draws")], "panic": lambda: t_threshold("Int8", 5, "panic"),
+        # failure signals raised in callbacks: the fuzz target must fail iff the test case is falsified
+        "custom_cleanup_errorf": lambda: [draw(g("Custom", elem=g("Int8"), body=[draw(g("Byte"), "y", "y"),
+                                                                                  op("cleanup", body=[iff("y", "ge", 100, [op("errorf", text="late")])])]), "c")],
+        "custom_errorf": lambda: [draw(g("Custom", elem=g("Int8"), body=[draw(g("Byte"), "y", "y"), iff("y", "ge", 100, [op("errorf", text="in custom")])]), "c")],
+        "cleanup_errorf": lambda: [draw(g("Byte"), "x", "x"), op("cleanup", body=[iff("x", "ge", 100, [op("errorf", text="cleanup")])]), draw(g("Bool"), "b")],
+        "errorf_then_custom": lambda: [draw(g("Byte"), "x", "x"), iff("x", "ge", 100, [op("errorf", text="early")]), draw(g("Custom", elem=g("Int8"), body=[]), "c")],
+        "sm_skips": lambda: [op("setvar", var="n", val="0"),
+                             op("repeat", actions={"inc": [draw(g("Bool"), "b"), op("incvar", var="n")], "skipafter": [draw(IntRange(0, 9), "r"), op("skip")],
+                                                   "skipafter2": [draw(g("Byte"), "q"), draw(g("Bool"), "w"), op("skip")]}),
+                             draw(g("Int"), "after")],
     }
     pats = ["00", "ff", "01", "80", "7f"]
     nrep = 1 if tier == "quick" else 10
@@ -880,9 +890,12 @@ def c13(tier, seed):
             # tail bytes after a word of all ones: a stale (not re-zeroed) buffer would show
             j = add("ff" * 8 + "010203")
             add("ff" * 8 + "0102030000000000", j, "same")
-            jf = rng.randrange(1, len(inputs) + 1)
-            rel.append({"a": "ff1@2", "kind": "faithful", "b": "fuzz%d" % jf})
-            runs = [{"fuzz": inputs}, {"entry": "check", "failfileFuzz": jf, "flags": {"checks": "3", "seed": "5", "nofailfile": "true", "shrinktime": "0s"}}]
+            # the same words through a fail-file replay (a T that does not log, unlike the fuzz target's) give the same draws and verdict
+            longs = [j + 1 for j, hx in enumerate(inputs) if len(hx) >= 2 * 64] or list(range(1, len(inputs) + 1))
+            runs = [{"fuzz": inputs}]
+            for rno, jf in enumerate(rng.sample(longs, min(4, len(longs)))):
+                rel.append({"a": "ff1@%d" % (rno + 2), "kind": "faithful", "b": "fuzz%d" % jf})
+                runs.append({"entry": "check", "failfileFuzz": jf, "flags": {"checks": "3", "seed": "5", "nofailfile": "true", "shrinktime": "0s"}})
             out.append(scenario("c13-%s-%d" % (pn, rep), {"body": props[pn]()}, {"steps": rng.choice([2, 30])}, runs=runs, entry="fuzz",
                                 tag={"prop": pn, "rel": rel, "inputs": len(inputs)}))
     return out
